@@ -47,8 +47,12 @@ def main():
                     demo_files.append(os.path.join(root, f))
             if isinstance(demo_path, list):
                 demo_path = demo_path[0]
+            droot = os.path.join(d, "demo")
+            mirrored = demo_files and all(os.path.relpath(f, droot).split(os.sep)[0] in ("poc", "fractal", "api", "config", "cmd") for f in demo_files)
             for f in demo_files:
-                if len(demo_files) == 1 and demo_path and demo_path.endswith(".go"):
+                if mirrored:
+                    dst = os.path.join(wt, os.path.relpath(f, droot))  # demo/ mirrors the repository layout
+                elif len(demo_files) == 1 and demo_path and demo_path.endswith(".go"):
                     dst = os.path.join(wt, demo_path)
                 else:
                     base = os.path.dirname(demo_path) if demo_path and demo_path.endswith(".go") else (demo_path or "")
